@@ -2,16 +2,18 @@
 # usage: refactor_test.sh <id> ...  — behaviour-preserving refactorings (no-alarm corpus, archived in /verif/refactors/<id>/; while a
 # scratch clone /tmp/wt4/<prop> exists the delivery is first confirmed there: equivalence test passes before and after, suite passes):
 # apply to /repo, run the property's quick check (expect exit 0 and no VIOLATION), revert. Never run while another check is running.
-cd /verif || exit 2
+cd "$(dirname "$0")" || exit 2
+HERE=$(pwd); REPO="${VERIF_REPO:-/repo}"
+all=("$@"); [ ${#all[@]} -eq 0 ] && all=($(ls $HERE/refactors | sort))
 export GOFLAGS=-mod=mod GOPROXY=off
-for s in "$@"; do
-  p=${s%-*}; wt=/tmp/wt4/$p; sd=/verif/refactors/$s; [ -d $wt/out/$s ] && sd=$wt/out/$s
+for s in "${all[@]}"; do
+  p=${s%-*}; wt=/tmp/wt4/$p; sd=$HERE/refactors/$s; [ -d $wt/out/$s ] && sd=$wt/out/$s
   f=$(grep -m1 '^+++ b/' "$sd/patch.diff" | sed 's|^+++ b/||'); pkgdir=$(dirname "$f")
   echo "confirm: (archived; confirmed when delivered)" > /tmp/refconf_$s.txt
   [ -d $wt ] && ( cd $wt && git checkout -q -- . && cp $sd/equiv_test.go $pkgdir/zz_equiv_test.go && a=$(go test -vet=off -count=1 -run TestRefactorEquiv ./$pkgdir 2>&1 | tail -1 | cut -c1-40); git apply $sd/patch.diff && b=$(go test -vet=off -count=1 -run TestRefactorEquiv ./$pkgdir 2>&1 | tail -1 | cut -c1-40); rm -f $pkgdir/zz_equiv_test.go; c=$(go test -vet=off -count=1 $(go list ./... | grep -v /out) 2>&1 | grep -v '^ok\|no test files' | head -2); git checkout -q -- .; echo "confirm: before=[$a] after=[$b] suite_failures=[$c]" ) > /tmp/refconf_$s.txt 2>&1
-  if [ -n "$(git -C /repo status --porcelain --untracked-files=no)" ]; then echo "repo dirty" >&2; exit 2; fi
-  if ! git -C /repo apply $sd/patch.diff; then echo "$s: patch does not apply to /repo"; continue; fi
-  GOVC_EVIDENCE_DIR=/verif/out/evidence_seed ./check $p $ONLY > /tmp/reftest_$s.log 2>&1; rc=$?
-  git -C /repo checkout -- .
+  if [ -n "$(git -C "$REPO" status --porcelain --untracked-files=no)" ]; then echo "repo dirty" >&2; exit 2; fi
+  if ! git -C "$REPO" apply $sd/patch.diff; then echo "$s: patch does not apply to /repo"; continue; fi
+  GOVC_EVIDENCE_DIR=$HERE/out/evidence_seed ./check $p $ONLY > /tmp/reftest_$s.log 2>&1; rc=$?
+  git -C "$REPO" checkout -- .
   echo "$s: exit=$rc viol=$(grep -c '^VIOLATION' /tmp/reftest_$s.log) | $(grep -m4 '^VIOLATION' /tmp/reftest_$s.log | sed 's/.*obligation=//' | cut -c1-140 | tr '\n' ';') | $(tail -1 /tmp/refconf_$s.txt | cut -c1-200)"
 done
